@@ -237,5 +237,97 @@ fn native_enum_multi_verify_accepts_only_sorted() {
     assert!(failure.is_none(), "{}", failure.unwrap());
 }
 
+/// C18 / C08 (bounded native enumeration): `verify_update` on every ACCEPTED small multi-proof
+/// (pairs of small terminals, see above) with every op list of length 1..=3 over 8 key patterns
+/// (ascending, descending and duplicate keys, inserts and deletes): it must return, never panic,
+/// and must reject every op list that is not strictly ascending.
+#[cfg(test)]
+#[test]
+fn native_enum_multi_verify_update_total() {
+    type B3 = crate::hasher::Blake3Hasher;
+    let mut items: Vec<MultiPathProof> = Vec::new();
+    for depth in 0..=3usize {
+        for v in 0..(1usize << depth) {
+            let bits: Vec<bool> = (0..depth).map(|i| (v >> (depth - 1 - i)) & 1 == 1).collect();
+            items.push(MultiPathProof { terminal: PathProofTerminal::Terminator(pos_from_bits(&bits)), depth });
+        }
+    }
+    for first in [0x00u8, 0x40, 0x80, 0xff] {
+        for depth in 1..=3usize {
+            let mut k = [0u8; 32];
+            k[0] = first;
+            items.push(MultiPathProof {
+                terminal: PathProofTerminal::Leaf(LeafData { key_path: k, value_hash: [7u8; 32] }),
+                depth,
+            });
+        }
+    }
+    let key_of = |b: u8| { let mut k = [0u8; 32]; k[0] = b; k[31] = 1; k };
+    let pats = [0x00u8, 0x20, 0x40, 0x60, 0x80, 0xa0, 0xc0, 0xe0];
+    let mut op_lists: Vec<Vec<(KeyPath, Option<ValueHash>)>> = Vec::new();
+    for &a in &pats {
+        op_lists.push(vec![(key_of(a), Some([1u8; 32]))]);
+        op_lists.push(vec![(key_of(a), None)]);
+        for &b in &pats {
+            op_lists.push(vec![(key_of(a), Some([1u8; 32])), (key_of(b), None)]);
+            op_lists.push(vec![(key_of(a), Some([1u8; 32])), (key_of(b), Some([2u8; 32]))]);
+            for &c in &[0x00u8, 0x40, 0x80, 0xe0] {
+                op_lists.push(vec![(key_of(a), Some([1u8; 32])), (key_of(b), Some([2u8; 32])), (key_of(c), None)]);
+            }
+        }
+    }
+    let prev_hook = std::panic::take_hook();
+    std::panic::set_hook(Box::new(|_| {}));
+    let mut verified: Vec<VerifiedMultiProof> = Vec::new();
+    let mut singles_and_pairs: Vec<Vec<MultiPathProof>> = items.iter().map(|a| vec![a.clone()]).collect();
+    for a in &items {
+        for b in &items {
+            singles_and_pairs.push(vec![a.clone(), b.clone()]);
+        }
+    }
+    for paths in singles_and_pairs {
+        for ns in 0..=3usize {
+            let siblings = vec![[9u8; 32]; ns];
+            let computed = std::panic::catch_unwind(|| {
+                let mut vp = Vec::new();
+                let mut vb = Vec::new();
+                verify_range::<B3>(0, &paths, &siblings, 0, &mut vp, &mut vb)
+            });
+            if let Ok(Ok((root, used))) = computed {
+                if used == siblings.len() {
+                    let mp = MultiProof { paths: paths.clone(), siblings };
+                    if let Ok(Ok(v)) = std::panic::catch_unwind(|| verify::<B3>(&mp, root)) {
+                        verified.push(v);
+                    }
+                }
+            }
+        }
+    }
+    let mut calls = 0u64;
+    let mut failure: Option<String> = None;
+    'outer: for v in &verified {
+        for ops in &op_lists {
+            calls += 1;
+            let sorted = ops.windows(2).all(|w| w[0].0 < w[1].0);
+            let r = std::panic::catch_unwind(|| verify_update::<B3>(v, ops.clone()));
+            match r {
+                Err(_) => {
+                    failure = Some(format!("verify_update panicked on proof {:?} with ops keys {:?}", v, ops.iter().map(|o| o.0[0]).collect::<Vec<_>>()));
+                    break 'outer;
+                }
+                Ok(Ok(_)) if !sorted => {
+                    failure = Some(format!("verify_update accepted ops that are not strictly ascending: {:?} on proof {:?}", ops.iter().map(|o| o.0[0]).collect::<Vec<_>>(), v));
+                    break 'outer;
+                }
+                _ => {}
+            }
+        }
+    }
+    std::panic::set_hook(prev_hook);
+    println!("native_enum_multi_verify_update_total: {} calls on {} verified proofs", calls, verified.len());
+    assert!(verified.len() > 10, "vacuous: too few verified proofs");
+    assert!(failure.is_none(), "{}", failure.unwrap());
+}
+
 #[cfg(test)]
 include!("/verif/.build/playback/core_multi_proof.inc");
